@@ -257,6 +257,12 @@ Section Spec.
     negb (is_some (filter_data (u_fd u))) || match u_new u with [] => true | _ => false end.
 End Spec.
 
+(* an update with a selector (or elements) in its partial filter but without any data item: the
+   engine answers with an error whatever the data is (after its delete filter, if any, has
+   already run on the working copy), so the fold skips it *)
+Definition rejected_shape (u : upd) : bool :=
+  is_some (filter_data (u_fp u)) && match u_new u with [] => true | _ => false end.
+
 (* ---- equality of operations (for the re-application clause) ---- *)
 
 Fixpoint eqb_items (a b : list item) : bool :=
@@ -322,18 +328,20 @@ Definition mon (m : mst) (o : op) (out : list obs) : mst * verdict :=
              persistence, error, panic) the data must be what it was *)
           let applied := persist && N.eqb c 0 in
           let full := negb (m_direct m) && is_full persist u in
-          let m' := if applied then spec_apply s full u (m_map m) else m_map m in
+          (* an accepted remote write is judged by C04 (Spec/WriteSpec.v): here the data it
+             leaves is taken as the new starting point of the fold; a rejected one is skipped *)
+          let m' := if applied then (if remote then of_list s l else spec_apply s full u (m_map m)) else m_map m in
           let v :=
             (if same_map s l m' then [] else [CL_FOLD]) ++
             (if unique_ids s l then [] else [CL_UNIQUE]) ++
             (if ordered s l then [] else [CL_ORDER]) ++
             (match m_prev m with
              | Some (u', l') =>
-                 if applied && eqb_upd u u' && simple u && negb (eqb_items l l') then [CL_IDEM] else []
+                 if negb remote && applied && eqb_upd u u' && simple u && negb (eqb_items l l') then [CL_IDEM] else []
              | None => []
              end) in
           ({| m_sch := s; m_direct := m_direct m; m_map := m';
-              m_prev := if applied then Some (u, l) else None |}, v)
+              m_prev := if negb remote && applied then Some (u, l) else None |}, v)
       end
   | Snapshot, [Store so] =>
       let l := match so with Some l => l | None => [] end in
@@ -346,7 +354,9 @@ Definition mon (m : mst) (o : op) (out : list obs) : mst * verdict :=
    well-formed (repeated, missing, partially given or — in a full update —
    unordered identifiers; data that rewrites identifiers) is stored as it is:
    recorded finding, all four clauses are excused from then on until a well-formed
-   full update replaces the data.  Remote writes are the subject of C04. *)
+   full update replaces the data.  The same holds for remote writes (their effect is
+   the subject of C04; here a rejected one must leave the data as it was, and an accepted
+   one re-starts the fold from the data it leaves). *)
 Record sst := { sc_sch : schema; sc_direct : bool; sc_oos : bool }.
 Definition sinit : sst := {| sc_sch := empty_schema; sc_direct := false; sc_oos := true |}.
 
@@ -355,10 +365,10 @@ Definition scope (s : sst) (o : op) : sst :=
   | Init ty d => {| sc_sch := schema_of ty; sc_direct := d; sc_oos := negb (wf_schema (schema_of ty)) |}
   | Update remote persist wire u =>
       let full := negb (sc_direct s) && is_full persist u in
-      if remote then {| sc_sch := sc_sch s; sc_direct := sc_direct s; sc_oos := true |}
-      else if negb persist then s
+      if negb persist then s
       else if wf_update (sc_sch s) full u then
         (if full then {| sc_sch := sc_sch s; sc_direct := sc_direct s; sc_oos := negb (wf_schema (sc_sch s)) |} else s)
+      else if rejected_shape u then s
       else {| sc_sch := sc_sch s; sc_direct := sc_direct s; sc_oos := true |}
   | Snapshot => s
   end.
